@@ -151,6 +151,9 @@ type Hooks struct {
 	OnTransition func(x *Explorer, from *E1State, tr Trans, res *StepResult, to *E1State)
 	// OnState is called once for every new state with the world restored to it.
 	OnState func(x *Explorer, s *E1State)
+	// OnExpanded is called after all transitions of a state were executed; out is the number of transitions that
+	// left the state's content (0 in the any-time model means: no reconciler can do anything any more).
+	OnExpanded func(x *Explorer, s *E1State, out int)
 	// Aux computes the check-specific memory of the successor (optional).
 	Aux func(x *Explorer, from *E1State, tr Trans, res *StepResult) string
 }
@@ -375,7 +378,9 @@ func (x *Explorer) Run() {
 				x.Capped = true
 				return
 			}
+			outCount := 0
 			add := func(tr Trans, res *StepResult, queues map[string][]string, env Env) {
+				outCount++
 				aux := s.aux
 				if x.Hooks.Aux != nil {
 					aux = x.Hooks.Aux(x, s, tr, res)
@@ -484,6 +489,9 @@ func (x *Explorer) Run() {
 				env := s.env
 				env.Crashes++
 				add(Trans{Kind: "restart", Fault: "crash-between-steps"}, nil, x.enq(map[string][]string{}, tokens), env)
+			}
+			if x.Hooks.OnExpanded != nil {
+				x.Hooks.OnExpanded(x, s, outCount)
 			}
 		}
 		frontier = next
